@@ -9,7 +9,12 @@ import (
 	_ "verifharness/props/c01"
 	_ "verifharness/props/c02"
 	_ "verifharness/props/c04"
+	_ "verifharness/props/c05"
 	_ "verifharness/props/c06"
+	_ "verifharness/props/c07"
+	_ "verifharness/props/c14"
+	_ "verifharness/props/c16"
+	_ "verifharness/props/c18"
 )
 
 func main() { fw.Main() }
